@@ -39,8 +39,12 @@ def check_effects(ctx, trace_path):
     return names
 
 
-def run_templates(ctx, clauses, seeds, iters, name="runs", quick_grid=None, templates=None, evals=("seq",)):
-    sp = specs(ctx.quick if quick_grid is None else quick_grid, seeds, iters)
+def run_templates(ctx, clauses, seeds, iters, name="runs", quick_grid=None, templates=None, evals=("seq",), components=False):
+    if components:
+        from checks.templates_grid import component_specs
+        sp = component_specs(ctx.quick, seeds, iters)
+    else:
+        sp = specs(ctx.quick if quick_grid is None else quick_grid, seeds, iters)
     if templates:
         sp = [s for s in sp if s["template"] in templates]
     out = []
